@@ -842,9 +842,11 @@ func IsSpace(c byte) bool {
 	return spaceTable[c] == 1
 }
 
-// IsSpaceRune returns true if the given rune is a space, otherwise false.
+// IsSpaceRune returns true if the given rune is a Unicode whitespace
+// character in the sense of CommonMark (a character of the general category
+// Zs, a tab, a line feed, a form feed or a carriage return), otherwise false.
 func IsSpaceRune(r rune) bool {
-	return int32(r) <= 256 && IsSpace(byte(r)) || unicode.IsSpace(r)
+	return r == ' ' || r == '\t' || r == '\n' || r == '\f' || r == '\r' || unicode.Is(unicode.Zs, r)
 }
 
 // IsNumeric returns true if the given character is a numeric, otherwise false.
